@@ -352,4 +352,4 @@ def main(tier, seed):
 
 
 def replay(path):
-    return generic_replay("C17", path, confirm_job, extra=("quick",))
+    return generic_replay("C17", path, confirm_job, extra=("quick",), item_job=job)
